@@ -22,13 +22,19 @@ def run(ctx):
         # -simulate prints Emit for every successor of a trace's last state (~ alphabet size
         # behaviours per trace), so num is small
         ("C02_2x2_sim", 2, 2, "simulate", 60 if not thorough else 250, 8),
-        ("C02_3x1_sim", 3, 1, "simulate", 100 if not thorough else 400, 10),
+        ("C02_3x1_sim", 3, 1, "simulate", 60 if not thorough else 400, 10),
     ]
+    # copy-on-write paths: a held (derived) value freezes the containers, then mutations at the
+    # array/bitmap and bitmap/run conversion points (profiles thresh, runs, longruns)
+    hold = ("C02_1x3_hold_d4" if thorough else "C02_1x3_hold_q", 1, 3, "bfs", None, None)
+    runs += [hold, ("C02_1x3_sim", 1, 3, "simulate", 60 if not thorough else 300, 8)]
     if thorough:
         runs += [("C02_2x1_d4", 2, 1, "bfs", None, None), ("C02_2x2_d3", 2, 2, "bfs", None, None)]
     for cfg, K, M, mode, num, depth in runs:
         r = ctx.generate("RoaringHist", cfg, mode=mode, num=num, depth=depth, timeout=1200)
-        ctx.drive("bind/roaringb", "TestC02", beh=r.behaviours, env={"VERIF_K": K, "VERIF_M": M},
-                  label="C02/" + cfg, timeout=3000)
+        env = {"VERIF_K": K, "VERIF_M": M}
+        if "hold" in cfg:
+            env["VERIF_PROFILES"] = "thresh/low,runs/gap,longruns/low"
+        ctx.drive("bind/roaringb", "TestC02", beh=r.behaviours, env=env, label="C02/" + cfg, timeout=3000)
     ctx.exhaustive = False
     ctx.notes.append("exhaustive over all histories of depth 3 on 2 containers x 1 slot (both collections); deeper and wider scopes sampled")
